@@ -79,9 +79,18 @@ def averaging_window(ctx):
                  summaries={'efficient_cond': econd_summary})
   r = ev.run(fi)
   ctx.evaluations += 1
-  rf = rec_fields(r)
-  if rf is None or 'avg_grad' not in rf:
+  def rec_arms(t):
+    return rec_arms(t.args[1]) + rec_arms(t.args[2]) if t.op in ('ite', 'cond') else [t]
+  arms = [rec_fields(a_) for a_ in rec_arms(r)]
+  if not arms or any(a_ is None or 'avg_grad' not in a_ for a_ in arms):
     raise AnalysisError('_compute_stats does not return a ParameterStats record with avg_grad')
+  for rf in arms:
+    _averaging_window_arm(ctx, fi, ev, rf)
+
+
+def _averaging_window_arm(ctx, fi, ev, rf):
+  from ..ideal import Point
+  from ..lib import select_arms
   G = sym('param', fi.short, 'grad')
   ST = sym('param', fi.short, 'state')
   STEP = sym('param', fi.short, 'step')
